@@ -17,6 +17,9 @@ syntactic shape raises SiteError, which the build records as a broken obligation
     reshapes and its zero-size shortcut condition (any(dim == 0 ...) over exactly those two tuples).
  3b. `s_td_shortcut_kinds` — what kind of object that zero-size block returns for every operand kind pair and
     return_type (abstract execution of its statements): it must honour the requested return type.
+ 5. `s_es_rep_from_end`, `s_es_out_from_end` — from which end of the pool of unused letters `_parse_einsum_input` takes the
+    letters standing for `...` (a term's and the output's): they must agree so that a shorter ellipsis lines up
+    with the TRAILING axes of a longer one (NumPy broadcasting).
  4. `s_dot_index_allocs`, `s_coo_indptr_dtype_a/b` — the dtype of every pointer / index / counter array
     allocated in `_dot` (the COO -> CSR row pointers) and in the product kernels: they hold cumulative
     counts of stored elements, so they must not be allocated in an operand's (possibly narrow)
@@ -281,7 +284,8 @@ def dot_table(fn):
 # ---------------------------------------------------------------------------- 2. matmul case chain
 MATMUL_BODIES = [
     ("b.ndim <= 2", "return dot(a, b)"),
-    ("a.ndim <= 2", "res = dot(a, b)\naxes = list(range(res.ndim))\naxes.insert(-1, axes.pop(0))\nreturn res.transpose(axes)"),
+    ("a.ndim == 1", "return dot(a, b)"),
+    ("a.ndim == 2", "res = dot(a, b)\naxes = list(range(res.ndim))\naxes.insert(-1, axes.pop(0))\nreturn res.transpose(axes)"),
     ("a.ndim <= b.ndim and np.prod(a.shape[:-1]) == 1",
      "res = dot(a.reshape(-1), b)\nshape = list(res.shape)\nshape.insert(-1, 1)\nreturn res.reshape(shape)"),
     ("b.ndim <= a.ndim and np.prod(b.shape[:-2]) == 1", "return dot(a, b.reshape(b.shape[-2:]))"),
@@ -317,7 +321,7 @@ def matmul_case(fn):
     last = fn.body[-1]
     if not (isinstance(last, ast.Return) and U(last.value) == "_matmul_recurser(a, b)"):
         raise SiteError("matmul: does not end in the batch recursion")
-    lines.append("    return 5")
+    lines.append(f"    return {len(MATMUL_BODIES) + 1}")
     src = "\n".join(lines) + "\n"
     spec = dict(name="s_matmul_case", file=COMMON, func="matmul_case", callable=False,
                 extern={"a.ndim": "Ok a_ndim", "b.ndim": "Ok b_ndim",
@@ -387,6 +391,9 @@ def td_shortcut_kinds(fn):
 
 # ---------------------------------------------------------------------------- 4. index-array allocations
 INDEX_NAMES = ("a_indptr", "b_indptr", "indptr", "indices", "coords", "mask", "next_")
+DATA_NAMES = ("sums", "data", "out")      # value buffers / accumulators of the kernels: must have the result dtype dtr
+DATA_FUNCS = ("_dot_csr_csr_type", "_dot_csr_ndarray_type", "_dot_csr_ndarray_type_sparse", "_dot_csc_ndarray_type",
+              "_dot_csc_ndarray_type_sparse", "_dot_coo_coo_type", "_dot_coo_ndarray_type", "_dot_ndarray_coo_type")
 ALLOC_FUNCS = ("_dot", "_csr_csr_count_nnz", "_csc_ndarray_count_nnz", "_dot_csr_csr_type", "_dot_csr_ndarray_type_sparse",
                "_dot_csc_ndarray_type_sparse", "_dot_coo_coo_type")
 DTYPE_CODE = {"np.intp": 0, "a.coords.dtype": 1, "b.coords.dtype": 1, "dtr": 2, None: 3}
@@ -417,6 +424,61 @@ def index_allocs(tree):
     return rows
 
 
+def data_allocs(tree):
+    """every `sums/data/out = np.empty/np.zeros(..., dtype=D)` of the product kernels: (function, variable, dtype code)"""
+    rows = []
+    for fname in DATA_FUNCS:
+        fn = _func(tree, fname)
+        for n in ast.walk(fn):
+            if isinstance(n, ast.Assign) and len(n.targets) == 1 and isinstance(n.targets[0], ast.Name) \
+                    and n.targets[0].id in DATA_NAMES and isinstance(n.value, ast.Call) \
+                    and U(n.value.func) in ("np.empty", "np.zeros", "np.full"):
+                dt = None
+                for k in n.value.keywords:
+                    if k.arg == "dtype":
+                        dt = U(k.value)
+                if dt not in DTYPE_CODE:
+                    raise SiteError(f"{fname}: `{U(n)}`: dtype expression `{dt}` of a value buffer is not one the model knows")
+                rows.append((fname, n.targets[0].id, dt, DTYPE_CODE[dt]))
+    need = {("_dot_csr_csr_type", "sums"), ("_dot_csc_ndarray_type_sparse", "sums"), ("_dot_coo_coo_type", "sums"),
+            ("_dot_csr_csr_type", "data"), ("_dot_csr_ndarray_type", "out"), ("_dot_csc_ndarray_type", "out")}
+    have = {(f, v) for f, v, _d, _c in rows}
+    if not need <= have:
+        raise SiteError(f"value-buffer allocations not found: {sorted(need - have)}")
+    return rows
+
+
+# ---------------------------------------------------------------------------- 5. einsum: letters standing for `...`
+def _slice_end(e, name, count):
+    """`name[-count:]` -> True (letters from the END of the pool), `name[:count]` -> False; anything else fails closed"""
+    if isinstance(e, ast.Subscript) and isinstance(e.value, ast.Name) and e.value.id == name and isinstance(e.slice, ast.Slice) \
+            and e.slice.step is None:
+        lo, up = e.slice.lower, e.slice.upper
+        if up is None and isinstance(lo, ast.UnaryOp) and isinstance(lo.op, ast.USub) and U(lo.operand) == count:
+            return True
+        if lo is None and up is not None and U(up) == count:
+            return False
+    raise SiteError(f"_parse_einsum_input: ellipsis letters `{U(e)}`")
+
+
+def einsum_ellipsis(fn):
+    rep = out = None
+    for n in ast.walk(fn):
+        if isinstance(n, ast.Assign) and len(n.targets) == 1 and isinstance(n.targets[0], ast.Name):
+            if n.targets[0].id == "rep_inds":
+                rep = _slice_end(n.value, "ellipse_inds", "ellipse_count")
+            if n.targets[0].id == "out_ellipse":
+                v = n.value
+                if isinstance(v, ast.IfExp):
+                    if not (U(v.test) == "longest == 0" and U(v.body) == "''"):
+                        raise SiteError(f"_parse_einsum_input: `{U(n)}`")
+                    v = v.orelse
+                out = _slice_end(v, "ellipse_inds", "longest")
+    if rep is None or out is None:
+        raise SiteError("_parse_einsum_input: rep_inds / out_ellipse not found")
+    return rep, out
+
+
 # ---------------------------------------------------------------------------- output
 def generate(repo):
     path = os.path.join(repo, COMMON)
@@ -427,6 +489,8 @@ def generate(repo):
     tuples, sc_test = td_shortcut(_func(tree, "tensordot"))
     allocs = index_allocs(tree)
     sc_kinds = td_shortcut_kinds(_func(tree, "tensordot"))
+    dallocs = data_allocs(tree)
+    es_rep, es_out = einsum_ellipsis(_func(tree, "_parse_einsum_input"))
     h = hashlib.sha256((U(_func(tree, "_dot")) + U(_func(tree, "matmul")) + U(_func(tree, "tensordot"))).encode()).hexdigest()[:16]
     out = ["(* Gen/S_dot.v — generated by tools/sitegen/dot.py from sparse/numba_backend/_common.py (_dot, matmul,",
            f"   tensordot; srchash={h}).  Do not edit. *)",
@@ -446,8 +510,9 @@ def generate(repo):
     out.append(";\n".join(body))
     out.append("].")
     out.append("")
-    out.append("(* matmul: which strategy — 1 dot | 2 dot, then move the first axis | 3 squeeze a to a vector |")
-    out.append("   4 squeeze b to a matrix | 5 batch recursion.  a_lead = np.prod(a.shape[:-1]), b_lead = np.prod(b.shape[:-2]) *)")
+    out.append("(* matmul: which strategy — 1 dot (b.ndim <= 2) | 2 dot (a 1-d) | 3 dot, then move the first axis (a 2-d) |")
+    out.append("   4 squeeze a to a vector | 5 squeeze b to a matrix | 6 batch recursion.")
+    out.append("   a_lead = np.prod(a.shape[:-1]), b_lead = np.prod(b.shape[:-2]) *)")
     out.append(mm_coq)
     out.append("(* tensordot: the 2-d reshape targets and the zero-size shortcut test")
     out.append(f"   `{sc_test}` *)")
@@ -466,6 +531,15 @@ def generate(repo):
     for (f, v, dt, c) in allocs:
         out.append(f"(*   {f}: {v} = np.*(..., dtype={dt}) *)")
     out.append("Definition s_dot_index_allocs : list Z := [%s]." % "; ".join(str(c) for (_f, _v, _d, c) in allocs))
+    out.append("(* value buffers / accumulators of the kernels (2 = the result dtype dtr; anything else loses values:")
+    out.append("   a float64 accumulator rounds int64 beyond 2**53 and cannot hold complex numbers) *)")
+    for (f, v, dt, c) in dallocs:
+        out.append(f"(*   {f}: {v} = np.*(..., dtype={dt}) *)")
+    out.append("Definition s_dot_data_allocs : list Z := [%s]." % "; ".join(str(c) for (_f, _v, _d, c) in dallocs))
+    out.append("(* _parse_einsum_input: the letters that replace `...` in a term covering ellipse_count axes, and in the output")
+    out.append("   (longest of them), are taken from the END of the pool of unused letters (true) or from its front (false) *)")
+    out.append(f"Definition s_es_rep_from_end : bool := {'true' if es_rep else 'false'}.")
+    out.append(f"Definition s_es_out_from_end : bool := {'true' if es_out else 'false'}.")
     da = [c for (f, v, _d, c) in allocs if (f, v) == ("_dot", "a_indptr")]
     db = [c for (f, v, _d, c) in allocs if (f, v) == ("_dot", "b_indptr")]
     if len(da) != 1 or len(db) != 1:
@@ -474,7 +548,8 @@ def generate(repo):
     out.append(f"Definition s_coo_indptr_dtype_a : Z := {da[0]}.")
     out.append(f"Definition s_coo_indptr_dtype_b : Z := {db[0]}.")
     out.append("")
-    report = {"s_dot_index_allocs": {"status": "ok", "allocs": [[f, v, dt] for (f, v, dt, _c) in allocs]},
+    report = {"s_es_ellipsis": {"status": "ok", "rep_from_end": es_rep, "out_from_end": es_out},
+              "s_dot_index_allocs": {"status": "ok", "allocs": [[f, v, dt] for (f, v, dt, _c) in allocs]},
               "s_dot_table": {"status": "ok", "rows": len(rows), "hash": h},
               "s_matmul_case": {"status": "ok", "tests": mm_tests},
               "s_td_shortcut": {"status": "ok", "newshape_a": tuples["newshape_a"], "newshape_b": tuples["newshape_b"]}}
